@@ -117,6 +117,15 @@ pub fn liveness_mode(prog: &Program) -> Live {
 /// inside the object with its event already fired (running the queue would complete it).
 pub fn sync_is_owed_progress(world: &World, r: &OpRec) -> bool {
     let Some(o) = r.obj else { return false };
+    // a suspension that has not been released yet legitimately holds everything behind it
+    let held = world.ops.iter().filter(|x| x.obj == Some(o) && x.kind == Kind::Suspend && matches!(x.outcome, CallOutcome::Returned(_))).any(|x| {
+        let Some(h) = x.handle else { return true };
+        let hr = &world.hrec[h];
+        !(hr.resumed_at.is_some() || (hr.dropped_at.is_some() && hr.resolved_at.is_none()))
+    });
+    if held {
+        return false;
+    }
     world.ops.iter().filter(|x| x.id != r.id && x.obj == Some(o) && x.kind.ordered() && matches!(x.outcome, CallOutcome::Returned(_))).all(|x| {
         if x.fin.is_some() {
             return true;
@@ -497,6 +506,10 @@ pub fn analyse(rep: &RunReport) -> Verdict {
             for (id, o, st) in &snap.asleep_syncs {
                 let r = &ops[*id as usize];
                 v(&mut out, "C04", "sync_asleep_on_claimable_queue", &[*id], snap.seq, format!("everything had gone quiet, yet {} {} on object {} slept on a condition variable while its queue was claimable (state tag {}): only an outside event could still rescue it", r.tag, id, o, st));
+                let after_suspend = world.hrec.iter().any(|h| h.kind == Kind::Suspend && h.resumed_at.map_or(false, |ra| ra < snap.seq) && h.op.map_or(false, |sid| ops[sid as usize].obj == Some(*o) && ops[sid as usize].ret.map_or(false, |sr| r.inv.map_or(false, |i| i > sr))));
+                if after_suspend {
+                    v(&mut out, "C13", "sync_during_suspension_never_completed", &[*id], snap.seq, format!("{} {} was made while object {} was suspended; the resumer has been used or dropped, everything has gone quiet, and the call still sleeps on a claimable queue", r.tag, id, o));
+                }
             }
         }
     }
@@ -747,6 +760,13 @@ fn blame_hang(rep: &RunReport, live: Live, out: &mut Vec<Violation>, verdict: &m
     let full = live == Live::Full;
     let _ = min_pool_of(world);
 
+    // a caller asked for surplus pool threads to be despawned and is still waiting for that call to return
+    let desp_inv = world.events.iter().filter(|e| e.code == "despawn_inv").count();
+    let desp_ret = world.events.iter().filter(|e| e.code == "despawn_ret").count();
+    if desp_inv > desp_ret {
+        v(out, "C17", "despawn_did_not_return", &[], 0, format!("despawn_threads_if_overloaded called from a caller thread while the pool was at work did not return: {}", where_));
+        return;
+    }
     // stuck in teardown
     match stage {
         Some(Stage::TeardownPool) => {
@@ -794,6 +814,12 @@ fn blame_hang(rep: &RunReport, live: Live, out: &mut Vec<Violation>, verdict: &m
             let event_fired = ops.iter().any(|x| x.obj == Some(o) && x.start.is_some() && x.fin.is_none() && x.kind != Kind::FutureSync && x.waiting_gate.map_or(false, |g| world.gates[g].open || x.waiting_gate_alt.map_or(false, |g2| world.gates[g2].open)));
             if matches!(task_state(r.thread), Some(TState::Blocked(Wait::Condvar(_)))) && (matches!(qstate, Some(0) | Some(1)) || (qstate == Some(5) && event_fired)) && sync_is_owed_progress(world, r) {
                 v(out, "C04", "sync_asleep_on_claimable_queue", &[r.id], r.inv.unwrap_or(0), describe(r));
+                // ... and if it was made while the queue was suspended and the resumer has since been used or dropped,
+                // it is a sync that did not complete after resumption
+                let after_suspend = world.hrec.iter().any(|h| h.kind == Kind::Suspend && h.resumed_at.is_some() && h.op.map_or(false, |sid| ops[sid as usize].obj == Some(o) && ops[sid as usize].ret.map_or(false, |sr| r.inv.map_or(false, |i| i > sr))));
+                if after_suspend {
+                    v(out, "C13", "sync_during_suspension_never_completed", &[r.id], r.inv.unwrap_or(0), describe(r));
+                }
                 props_found += 1;
             }
         }
